@@ -206,7 +206,7 @@ pub fn run(ctx: &mut Ctx) {
         family.push((f, format!("term names of {len} bytes, 255-byte gene name, 300-byte disease name")));
     }
     // ---- Space A: conformance in all record orders
-    ctx.space("conformance/v1-v3/record-orders", &format!("{} fact sets x versions 1,2,3; term records: all orders; parent records: all orders; gene/omim/orpha records: all orders; ids inside records reversed; parentless terms without parent record", family.len()));
+    ctx.space("conformance/v1-v3/record-orders", &format!("{} fact sets x versions 1,2,3; term records: all orders; parent records: all orders; gene/omim/orpha records: all orders; ids inside records reversed; parentless terms without parent record; the canonical file also through Ontology::from_binary (whole, cut in half, one byte short)", family.len()));
     for (f, what) in &family {
         for version in [1u8, 2, 3] {
             if !ctx.take() {
@@ -258,9 +258,44 @@ pub fn run(ctx: &mut Ctx) {
                     }
                 }
             }
+            // the file-based twin: the canonical bytes written to a file and read with Ontology::from_binary, and
+            // the same file cut off in the middle / one byte short (must be refused like the byte slice)
+            {
+                let bytes = secs.to_bytes();
+                let dir = crate::jax::scratch();
+                let path = format!("{dir}/conformance.hpo");
+                let case = || json!({"facts": pf.to_json(), "family": what, "format_version": version, "entry_point": "Ontology::from_binary(path)"});
+                if std::fs::write(&path, &bytes).is_ok() {
+                    ctx.transitions(pf.n_steps());
+                    match crate::ctx::guard(|| hpo::Ontology::from_binary(&path).map_err(|e| e.to_string())) {
+                        Ok(Ok(ont)) => {
+                            check_against_model(ctx, &ont, &r, Mode::Defaults, &format!("binary v{version} from a file"), &case);
+                        }
+                        Ok(Err(e)) => {
+                            ctx.exec();
+                            ctx.violation("Ontology::from_binary", &format!("[binary v{version} from a file] rejects a file laid out as documented"), json!({"case": case(), "observed": e}));
+                        }
+                        Err(p) => {
+                            ctx.exec();
+                            ctx.violation("Ontology::from_binary", &format!("[binary v{version} from a file] panics on a file laid out as documented"), json!({"case": case(), "observed": p}));
+                        }
+                    }
+                    for cut in [bytes.len() / 2, bytes.len() - 1] {
+                        if std::fs::write(&path, &bytes[..cut]).is_ok() {
+                            ctx.exec();
+                            ctx.validated();
+                            if let Ok(Ok(_)) = crate::ctx::guard(|| hpo::Ontology::from_binary(&path).map_err(|e| e.to_string())) {
+                                ctx.violation("Ontology::from_binary", "returns an ontology for a truncated file", json!({"case": case(), "kept_bytes": cut, "of": bytes.len()}));
+                            }
+                        }
+                    }
+                    let _ = std::fs::remove_file(&path);
+                }
+            }
             ctx.sample(|| json!({"facts": pf.to_json(), "format_version": version, "family": what}));
         }
     }
+    crate::jax::cleanup();
 
     // ---- Space B: faults
     ctx.space("faults/generated-files", &format!("{} generated files x versions 1,2,3: every proper prefix 0..len-1, 8 suffixes, every other version byte", family.len()));
